@@ -76,13 +76,13 @@ def time_limit(seconds):
     import signal
     def handler(signum, frame): raise TimeLimit()
     try:
-        old = signal.signal(signal.SIGALRM, handler); signal.setitimer(signal.ITIMER_REAL, seconds)
+        old = signal.signal(signal.SIGPROF, handler); signal.setitimer(signal.ITIMER_PROF, seconds)
     except ValueError:           # not in the main thread: no limit
         yield; return
     try:
         yield
     finally:
-        signal.setitimer(signal.ITIMER_REAL, 0); signal.signal(signal.SIGALRM, old)
+        signal.setitimer(signal.ITIMER_PROF, 0); signal.signal(signal.SIGPROF, old)
 
 
 def run_scripted(EoN, sim, case, draws, full):
